@@ -30,13 +30,24 @@ Split == <<"REFERENCE-SPLIT: TLA+ reference and JDK whole-algorithm provider dis
 \* An event carries a signature to judge unless the call panicked or Sign failed.
 HasSig(e) == ~e.panic /\ ~(e.ev = "sign" /\ e.err)
 
+\* Diagnosis attached to an RSA-SSA-PSS disagreement: is the signature a valid RSASSA-PSS signature
+\* of the message for SOME salt length other than the key's?  (Evaluated on mismatches only.)
+PSSDiag(e) ==
+  IF e.alg # "RSA_PSS" THEN ""
+  ELSE LET c  == Cfg(e)
+           S  == {sl \in 0..(ModLen(Pk(e).n) - HashLen(c.hash) - 1) :
+                    SigVerify([c EXCEPT !.saltLen = sl], Pk(e), HexToBytes(e.sig), HexToBytes(e.msg))}
+       IN IF S = {} THEN "not a valid RSASSA-PSS signature for any salt length"
+          ELSE "valid RSASSA-PSS signature for salt length " \o ToString(CHOOSE sl \in S : TRUE)
+               \o ", the key declares " \o ToString(c.saltLen)
+
 \* j = SigJudge(...) of the event: j.ok is the reference verdict SigVerify(cfg, pk, sig, msg).
 Verdict(e, j) ==
   CASE e.ev = "sign" ->
-         IF j.ok THEN <<>> ELSE <<"Tink signature rejected by the reference verifier", "TRUE">>
+         IF j.ok THEN <<>> ELSE <<"Tink signature rejected by the reference verifier", "TRUE", PSSDiag(e)>>
     [] e.ev = "verify" ->
          IF e.ok = j.ok THEN <<>>
-         ELSE <<"Verify verdict differs from the reference verifier", ToString(j.ok)>>
+         ELSE <<"Verify verdict differs from the reference verifier", ToString(j.ok), IF e.ok THEN PSSDiag(e) ELSE "">>
 
 Judge(e) ==
   IF e.ev = "construct" THEN <<>>                       \* coverage only (DESIGN section 4)
